@@ -244,7 +244,7 @@ pub fn run(tier: Tier) -> i32 {
     }
     // extra identifiers with names YAML or the tokeniser treat specially (never referenced by the
     // condition), and the YAML merge key
-    for name in ["<<", "a b", "é", "*x", "&a", "A.B", "and", "not", "all(A)", "1a", "~x", "=", "?", "-", "condition2", "true_positives"] {
+    for name in ["a", "<<", "a b", "é", "*x", "&a", "A.B", "and", "not", "all(A)", "1a", "~x", "=", "?", "-", "condition2", "true_positives"] {
         jobs.push((
             RuleSpec {
                 idents: vec![
